@@ -25,7 +25,7 @@ def namesRun (f : String) (a : Array Json) (u : UInfo) : Except String Json := d
   | "classNames" => pure (jopt jstrs (classNames (← getStrs (← argN a 0))))
   | "moduleStems" => pure (jopt jstrs (moduleStems u (← getStrs (← argN a 0))))
   | "inlineName" => pure (jopt jstr (inlineName (← getStrs (← argN a 0)) (← getStr (← argN a 1))))
-  | "dedupOpIds" => pure (jstrs (dedupOpIds [] (← getStrs (← argN a 0))))
+  | "dedupOpIds" => pure (jopt jstrs (dedupOpIds? [] (← getStrs (← argN a 0))))
   | "methodNames" => pure (jstrs (methodNames (← getStrs (← argN a 0))))
   | _ => throw s!"unknown function {f}"
 
